@@ -400,6 +400,7 @@ func CheckC14(e *Env) int {
 		}
 	}
 	progs = append(progs, errNameProgs(e)...)
+	progs = append(progs, lateImportProgs()...)
 	results := RunPool(e, progs, PoolOpts{Execute: true, Name: "c14"})
 	byKey := map[key]*ProgResult{}
 	for _, pr := range results {
